@@ -72,8 +72,22 @@ func c18Traversals(adj [][]int, root int, g graph.Graph, r *core.Rec) {
 	if !equalInts(ev, events) {
 		r.Fail("Euler", "Euler tour events %v, want %v (n=enter, -n-1=exit)", clip(ev), clip(events))
 	}
-	// nil callbacks must be accepted
+	// nil callbacks must be accepted: both, and each one alone (the other still fires)
 	graphalg.Euler{}.Visit(g, root)
+	var onlyEnter, onlyExit []int
+	graphalg.Euler{Enter: func(n int) { onlyEnter = append(onlyEnter, n) }}.Visit(g, root)
+	graphalg.Euler{Exit: func(n int) { onlyExit = append(onlyExit, n) }}.Visit(g, root)
+	r.Trans(3)
+	if !equalInts(onlyEnter, pre) {
+		r.Fail("Euler-enter-only", "Euler with only Enter set visited %v, DFS pre-order is %v", clip(onlyEnter), clip(pre))
+	}
+	if !equalInts(onlyExit, post) {
+		r.Fail("Euler-exit-only", "Euler with only Exit set visited %v, DFS post-order is %v", clip(onlyExit), clip(post))
+	}
+	// orders already returned keep their value
+	if !equalInts(gp, pre) || !equalInts(gq, post) {
+		r.Fail("order-retained", "PreOrder/PostOrder results changed after later traversals: %v %v", clip(gp), clip(gq))
+	}
 	r.Outcome(hashInts(hashInts(14695981039346656037, gp), gq))
 }
 
